@@ -4,6 +4,7 @@ package tls
 
 import (
 	"bytes"
+	"io"
 
 	"github.com/refraction-networking/utls/internal/quicvarint"
 	"github.com/refraction-networking/utls/internal/quicvarint/protocol"
@@ -56,6 +57,10 @@ func VerifVarintRead(b []byte) (v uint64, consumed int, err error) {
 	v, err = quicvarint.Read(r)
 	return v, len(b) - r.Len(), err
 }
+
+// VerifVarintReadFrom decodes one varint from a caller-chosen source (sources that
+// deliver short reads, byte-only sources, buffered ones).
+func VerifVarintReadFrom(r io.ByteReader) (uint64, error) { return quicvarint.Read(r) }
 
 // private <-> public conversions (u_public.go)
 
